@@ -33,8 +33,10 @@ RULE = ("full cross product of input outcome (value/exception/cancelled) x fn be
         "f_map, f_flat_map) x timing (input done before / completes later from another thread) x schedules; distinct = distinct "
         "combination+schedule; non-trivial = the derived future reached a terminal state")
 
-FN_BEH = ["none", "ret6", "raise61", "futok7", "futerr71", "futcancelled"]
-EF_BEH = ["none", "ret8", "raise81", "same", "futok9", "futerr91", "futcancelled"]
+FN_BEH = ["none", "ret6", "raise61", "futok7", "futerr71", "futcancelled", "ret900", "ret903"]
+EF_BEH = ["none", "ret8", "raise81", "same", "futok9", "futerr91", "futcancelled", "ret901"]
+# plain values >= 900 are FALSY non-futures (None, 0, "", [], {}, False): a function may return any object
+FALSY_VALUES = {900: None, 901: 0, 902: "", 903: [], 904: {}, 905: False}
 INPUTS = ["ok5", "err50", "cancelled"]
 FORMS = ["f", "exec_sync", "exec_pool"]
 
@@ -256,6 +258,8 @@ def body_for(desc, ctx):
         ctx.pending_inner = []
 
         def val(n):
+            if n in FALSY_VALUES and n not in ctx.vals:
+                ctx.vals[n] = FALSY_VALUES[n] if not isinstance(FALSY_VALUES[n], (list, dict)) else type(FALSY_VALUES[n])()
             return ctx.vals.setdefault(n, Obj(n))
 
         def exc(n):
